@@ -95,6 +95,12 @@ def run_translator(ctx):
     if r.returncode != 0:
         ctx.stage_broken('translator', (r.stdout + r.stderr).strip()[-600:])
         return False
+    fbs = [l[len('TRANSLATOR-FALLBACK: '):] for l in r.stdout.splitlines() if l.startswith('TRANSLATOR-FALLBACK: ')]
+    if fbs:
+        # a table whose source shape was not recognised keeps its last extracted (committed) value; for it the tie between
+        # model and source is the differential correspondence of this run, not the regeneration
+        ctx.cov['translator_fallbacks'] = fbs
+        ctx.assumptions.append('translator could not re-extract: ' + '; '.join(fbs) + ' — last extracted values kept; for these the model is tied to the source by the per-stage correspondence only')
     return True
 
 
